@@ -25,6 +25,9 @@ CHECKS = {
  "C07": ("model_checking", "stateless model checking of the real (AST-instrumented) storage/memory, planner and table code under a cooperative scheduler: unbounded exploration with sleep sets per scenario plus deviation-bounded exploration without reduction; histories checked with porcupine against the set model",
          "9 scenarios x result-channel capacity 0/1 (2-7 threads; S6 = BQL INSERT || 2-clause SELECT). S1, S2, S3a, S4, S5a, S5b, S7: every Mazurkiewicz trace of the synchronisation operations and every schedule with <= 2 (quick) / <= 3 (thorough) deviations unreduced; S3 (shared LookupOptions) <= 3/4 deviations; S6 <= 1/2. On every execution: no panic / deadlock / leak / horizon, close exactly once also on error paths, batch atomicity, linearizability (porcupine), options unchanged before / during / after the call.",
          "Interleaving granularity is synchronisation operations; data-race freedom is validated, not decided, by a free-running -race companion. The explored program is the instrumented copy (map capacity hints dropped, map order ascending). RWMutex, WaitGroup and channel semantics are a transcription of Go's.", "3/C07"),
+ "C08": ("model_checking", "stateless model checking of the real, AST-instrumented run.BQL pipeline: one controlled execution per (statement text, fresh store, chanSize, bulkSize) on the default schedule with global oracles (panic in any thread incl. log.Fatalf, deadlock, leak after return, tick/step horizon), every schedule with <= 1 deviation on every K-th execution; input spaces enumerated exhaustively",
+         "S1 every token sequence <= 3 over the 55 kinds and every viable grammar prefix <= 6 (9) extended by each kind, with and without ';'; S2 every grammar sentence <= 14 (15) tokens, every single-token mutant (delete / duplicate / truncate / replace by each kind) and every lexeme-level edit; S3 every byte string <= 3 (4) over 18 punctuation bytes; S4 a 66-statement corpus x chanSize {0,1,3} x bulkSize {0,1,1000}; S5 every mutant of the corpus; against empty, named-empty and populated stores. 0.41 M (3.9 M) executions.",
+         "One schedule per case outside the 1-3 % subset (no explored case changes outcome under any one-deviation schedule); negative chanSize / bulkSize are configuration, out of scope; memory driver only.", "3/C08"),
  "C09": ("model_checking", "explicit-state BFS over graph contents; in every state the full lookup-option grid x all ten methods compared with the reference Lookup model; paging checked against the implementation's own unpaged sequence",
          "All 64 contents of a 6-triple temporal universe; in each the grid lower/upper in {nil,T0,T1,T2} (incl. lower>upper, bounds equal to anchors) x filter {none, latest, isImmutable, isTemporal} x field {predicate, object} + LatestAnchor x (MaxElements, Offset) in {0..3}^2 x ten methods x an argument grid.",
          "Bounded universe; latitude: Field=subject and LatestAnchor+FilterOptions may error; MaxElements<=0 means unpaged.", "3/C09"),
@@ -55,9 +58,12 @@ CHECKS = {
  "C18": ("model_checking", "BFS over parser configurations (viable token prefixes) against an independent table-driven recogniser; sentence enumeration with all single-token mutations; exhaustive (A then B) histories on one parser compared with a fresh parser",
          "Every viable prefix of length < 12 (14) extended by each of the 55 token kinds (1.2M / 10M sequences); every statement of <= 14 tokens accepted, all single-token deletions / insertions / substitutions classified; 48-statement corpus x 561 first statements (every token prefix of every corpus statement) parsed in sequence on one SemanticBQL parser, canonical Statement dump compared.",
          "One canonical lexeme per kind, confirmed by re-lexing; recogniser validated against the repository's accept/reject tables.", "3/C18"),
- "C19": ("model_checking", "explicit-state BFS over (content, per-handle cache entries) with every transition replayed on a fresh memoized store; every read through every handle compared with the wrapped store",
+ "C20": ("fault_enumeration", "fault enumeration by stateless model checking: the instrumented planner / table / semantic / memoization / memory code runs under the cooperative scheduler behind a fault-injecting storage.Store/Graph wrapper; every driver call of each statement's fault-free run fails in every mode; each plan explored with deviation-bounded scheduling without reduction",
+         "45 statements (SELECT 1-3 clauses over every driver-call kind with OPTIONAL / GROUP BY / ORDER BY / HAVING / LIMIT, 1/2/4 processors, through the memoizing store; INSERT / DELETE into 1-2 graphs; CONSTRUCT / DECONSTRUCT with bulkSize 1 and 1000, ';' reification, 2 output graphs; SHOW, CREATE, DROP): 191 driver calls of 14 methods, 315 fault points (error before any element, after j elements, on write, from Graph / GraphNames / NewGraph / DeleteGraph), 1292 fault pairs. Quick: every fault point on the default schedule and on every schedule with exactly 1 deviation, every pair on the default schedule; thorough: pairs x 1 deviation and points x 2 deviations as far as the budget allows. Oracle: non-nil error, no panic / deadlock / leak / horizon, memoized repeat returns the fault-free rows.",
+         "Fault points are the calls of the fault-free run; the faulty driver honours the contract (closes, yields, returns); one statement per execution; granularity = synchronisation operations.", "3/C20"),
+ "C19": ("model_checking", "explicit-state BFS over (content, per-handle cache entries) with every transition replayed on a fresh memoized store, every read through every handle compared with the wrapped store; concurrent part (cmd/c19c): stateless model checking of the instrumented memoization + memory code, sleep sets (exhaustive) plus deviation-bounded runs",
          "Handles h1=NewGraph, h2,h3=Graph of the same graph through the memoization wrapper; add/remove of 3 triples through any handle; all lookups, Exist, Triples x 6 option values (paging offsets, window, latest) through any handle; BFS to depth 4-5 (6-7 thorough) with canonical-state deduplication.",
-         "Sequential part only: interleavings of the layer's internal steps are not explored by this check.", "3/C19"),
+         "Concurrent part: 16 scenarios (writer, 1-2 readers, optional second writer on one memoizer; miss path, hit path, handles obtained during a write, reads placed inside the forwarded write): every Mazurkiewicz trace for the 2-operation scenarios plus every schedule with <= 2-3 (3-4) deviations; oracle = the three clauses of the property against a recording layer around the wrapped store. One graph, 3 triples, <= 4 operations.", "3/C19"),
 }
 NOT_YET = "check not built yet in this round (work in progress; see DESIGN.md section 3)"
 def main():
@@ -71,7 +77,7 @@ def main():
             "thorough_cmd": "./vcheck %s thorough" % pid,
             "evidence_file": "/verif/evidence/%s.json" % pid,
             "replay_cmd_template": "./vcheck %s --replay {path}" % pid,
-            "engine": "vsched" if pid in ("C07","C08","C20") else "xstate",
+            "engine": "vsched" if pid in ("C07","C08","C20") else ("xstate+vsched" if pid in ("C14","C19") else "xstate"),
             "level_claimed": {"category": cat, "text": text, "design_ref": "DESIGN.md section " + ref},
             "level_note": note,
             "technique": tech,
